@@ -2,6 +2,7 @@
 import fw
 import pipecheck
 import pipes
+import customsrc
 import trampipes
 
 LEAN_TARGETS = ["RxProofs.C03", "RxProofs.Ownership", "RxProofs.C02Comb", "RxProofs.C02Timed", "RxProofs.C02Win"]
@@ -18,7 +19,9 @@ RULE = ("generated pipelines (as C02) run once undisposed to collect every disti
         "current-thread trampoline (harness/trampipes.py): trees of cold synchronous producers and combinators, the subscriber disposing "
         "from inside its k-th notification for every k (and right after subscribe() returned); oracle: nothing (no notification, no user "
         "callback of any producer/operator) happens after dispose() returned; flat merges of of/from_iterable/range/generate are also "
-        "compared event-for-event with the Lean trampoline model (Tramp.final). non-trivial = dispose happened while at "
+        "compared event-for-event with the Lean trampoline model (Tramp.final). plus user-defined sources (reactivex.create / Observable(subscribe)) "
+        "returning their teardown as a Disposable, an object with dispose, a def, a lambda, a bound method, a functools.partial, a callable object "
+        "or a builtin method: the teardown runs exactly once when dispose() is called. non-trivial = dispose happened while at "
         "least one source subscription was open / while the undisposed run still had events to come")
 ASSUMPTIONS = ["windows and groups are flattened inside the generated pipelines (no live group/window subscriber shares a source)",
                "single-threaded execution: virtual time (TestScheduler) for timelines, the default current-thread trampoline for cold synchronous producers"]
@@ -63,6 +66,9 @@ def cases(rng, tier):
         if k is not None:
             c["k"] = k
         yield c
+    # user-defined sources returning their teardown in every accepted form
+    for _ in range(fw.tier_scale(tier, 300, 3000)):
+        yield customsrc.gen(rng)
     # default-scheduler (trampoline) runs: flat merges (model + oracle) and random trees (oracle)
     for i in range(fw.tier_scale(tier, 260, 3000)):
         tree = trampipes.gen_flat(rng) if i % 2 == 0 else trampipes.gen_tree(rng, 3)
@@ -78,6 +84,8 @@ def cases(rng, tier):
 
 
 def model_request(case):
+    if case["op"] == "custom":
+        return None
     if case["op"] == "tramp":
         if not trampipes.flat(case["tree"]):
             return None
@@ -118,11 +126,15 @@ def impl(case):
         return pipecheck.from_iter_impl(case)
     if case["op"] == "tramp":
         return trampipes.run(case)
+    if case["op"] == "custom":
+        return customsrc.run(case)
     out = pipes.run(case["pipeline"], dispose_at=case["dispose_at"], dispose_early=case["dispose_early"], dispose_in=case.get("dispose_in"))
     return {k: out.get(k) for k in ("log", "subs", "cb_times", "disposed_at", "log_len_at_dispose", "cb_len_at_dispose", "escaped")}
 
 
 def oracle(case, out):
+    if case["op"] == "custom":
+        return customsrc.oracle(case, out) if out["disposed"] else None
     if case["op"] == "tramp":
         return trampipes.oracle(case, out)
     if case["op"] == "from_iter":
@@ -146,6 +158,8 @@ def oracle(case, out):
 
 
 def nontrivial(case, out):
+    if case["op"] == "custom":
+        return out["disposed"] and out["subscribed"] > 0 and case["form"] != "none"
     if case["op"] == "tramp":
         return trampipes.nontrivial(case, out)
     if case["op"] == "from_iter":
@@ -164,6 +178,9 @@ def _kinds(tree):
 def bucket(case, out):
     if case["op"] == "from_iter":
         yield "from_iter"
+        return
+    if case["op"] == "custom":
+        yield "custom-source:" + case["form"]
         return
     if case["op"] == "tramp":
         yield "tramp:flat-merge(model)" if trampipes.flat(case["tree"]) else "tramp:tree(oracle)"
@@ -189,6 +206,12 @@ def _subtrees(tree):
 def shrink(case):
     if case["op"] == "from_iter":
         return
+    if case["op"] == "custom":
+        for i in range(len(case["stages"])):
+            yield dict(case, stages=case["stages"][:i] + case["stages"][i + 1:])
+        if case["n"]:
+            yield dict(case, n=case["n"] - 1)
+        return
     if case["op"] == "tramp":
         for t in _subtrees(case["tree"]):
             for k in ([case["k"]] if case["k"] is None else range(-1, case["k"] + 1)):
@@ -210,6 +233,11 @@ def search(rng, tier, disagreeing):
     for c in disagreeing:
         if c["op"] == "pipeline":
             names.update(s[0] for s in c["pipeline"]["stages"])
+    for _ in range(fw.tier_scale(tier, 1500, 6000)):
+        c = customsrc.gen(rng)
+        v = oracle(c, impl(c))
+        if v:
+            return fw.shrink_failure(__import__("props.C03", fromlist=["x"]), fw.Failure("oracle", c, v))
     names.update(pipecheck.stages_for_rows(pipecheck.regenerate()["ownership_not_owned"]))
     names = sorted(n for n in names if n in pipes.STAGES) or None
     me = __import__("props.C03", fromlist=["x"])
@@ -237,6 +265,8 @@ def search(rng, tier, disagreeing):
 
 
 def classify(case, why):
+    if case["op"] == "custom":
+        return None
     """Known finding C03-subscribe-on-deferred: subscribe_on wraps the subscription in a ScheduledDisposable, so dispose() only
     *schedules* the unsubscription on the scheduler; stages upstream of subscribe_on keep running until that action runs
     (same virtual instant, later in the queue)."""
